@@ -3,7 +3,7 @@ from checks import lach_common as lc
 
 
 def run(c):
-    ex = lc.run_exhaustive(c, c.pick(["x31f_6"], ["x31f_7_full", "x211f_8"]), "cheaters")
+    ex = lc.run_exhaustive(c, c.pick(["x31f_6", "x211f_5"], ["x31f_7_full", "x211f_6"]), "cheaters")
     c.guard("model_dags_with_forks", ex["total"]["dags_with_forks"])
     res = lc.run_profile(c, "c03", c.pick(14, 200), "cheaters")
     st = res["stats"]
